@@ -398,6 +398,6 @@ theorem btl_sorted (a2t : Map) : ∀ (m index : Nat) (L : List Nat), btl a2t m i
         exact ⟨p, fun t ht => by obtain ⟨i, _, hi⟩ := q t ht; exact ⟨i, hi⟩⟩
 
 theorem labelMatches_self (lab : Nat → String) (cs : Bool) (t : Nat) : labelMatches lab cs (lab t) t = true := by
-  unfold labelMatches; cases cs <;> simp
+  unfold labelMatches labelMatchesO; cases cs <;> simp [pyStr]
 
 end DendroModel.C10.Aux
